@@ -159,6 +159,64 @@ Theorem C15_oracle_holds : forall rules cat t, prop_c15_b rules cat t (category_
 Proof. exact (fun rules cat t => oracle_holds src_cfg rules cat t C15_source_configuration_good). Qed.
 Print Assumptions C15_oracle_holds.
 
+(* ---- one filter object asked about a history of messages.  A message = (address at which its category
+   name is stored, the name's text, its type); the object's only state is the parsed rule list. ---- *)
+
+(* every message of a history is answered with the specified verdict of ITS OWN name text and type *)
+Theorem C15_object_answers_are_specified : forall rules qs,
+  object_answers src_cfg rules qs = spec_answers rules qs.
+Proof. exact (fun rules qs => object_answers_spec src_cfg rules qs C15_source_configuration_good). Qed.
+Print Assumptions C15_object_answers_are_specified.
+
+(* the k-th answer is what a fresh object would say about that message alone *)
+Theorem C15_kth_answer_is_the_fresh_verdict : forall rules qs k q d, nth_error qs k = Some q ->
+  nth k (object_answers src_cfg rules qs) d = category_filter src_cfg rules (q_cat q) (q_type q).
+Proof.
+  exact (fun rules qs k q d Hk =>
+           eq_trans (object_answer_nth src_cfg rules qs k q d C15_source_configuration_good Hk)
+                    (eq_sym (model_is_spec src_cfg rules (q_cat q) (q_type q) C15_source_configuration_good))).
+Qed.
+Print Assumptions C15_kth_answer_is_the_fresh_verdict.
+
+(* no state leaks between calls: the answer to a message does not depend on what was asked before ... *)
+Theorem C15_answer_independent_of_history : forall rules h h' q d,
+  last (object_answers src_cfg rules (h ++ [q])) d = last (object_answers src_cfg rules (h' ++ [q])) d.
+Proof. exact (object_answer_history_irrelevant src_cfg). Qed.
+Print Assumptions C15_answer_independent_of_history.
+
+(* ... histories compose ... *)
+Theorem C15_histories_compose : forall rules h1 h2,
+  object_answers src_cfg rules (h1 ++ h2) = object_answers src_cfg rules h1 ++ object_answers src_cfg rules h2.
+Proof. exact (object_answers_app src_cfg). Qed.
+Print Assumptions C15_histories_compose.
+
+(* ... and the verdict is a function of the name's TEXT and the type, not of where the name is stored *)
+Theorem C15_answer_independent_of_address : forall rules h q q',
+  q_cat q = q_cat q' -> q_type q = q_type q' ->
+  object_answers src_cfg rules (h ++ [q]) = object_answers src_cfg rules (h ++ [q']).
+Proof. exact (object_answer_address_irrelevant src_cfg). Qed.
+Print Assumptions C15_answer_independent_of_address.
+
+(* two consecutive messages whose (different) names sit at the same address get each their own verdict *)
+Theorem C15_same_address_other_name_own_verdict : forall rules h q1 q2, q_addr q1 = q_addr q2 ->
+  object_answers src_cfg rules (h ++ [q1; q2]) =
+  object_answers src_cfg rules h ++ [spec_verdict rules (q_cat q1) (q_type q1); spec_verdict rules (q_cat q2) (q_type q2)].
+Proof. exact (fun rules h q1 q2 => object_same_address_own_verdicts src_cfg rules h q1 q2 C15_source_configuration_good). Qed.
+Print Assumptions C15_same_address_other_name_own_verdict.
+
+(* the history oracle the check evaluates on the answers of one implementation object: it accepts exactly the
+   specified answers, it is the single-message oracle on every message, and it holds of the model *)
+Theorem C15_history_oracle_exact : forall rules qs vs, prop_c15_seq_b rules qs vs = true <-> vs = spec_answers rules qs.
+Proof. exact seq_oracle_iff. Qed.
+Print Assumptions C15_history_oracle_exact.
+Theorem C15_history_oracle_pointwise : forall rules qs vs,
+  prop_c15_seq_b rules qs vs = true <-> Forall2 (fun q v => prop_c15_b rules (q_cat q) (q_type q) v = true) qs vs.
+Proof. exact seq_oracle_pointwise. Qed.
+Print Assumptions C15_history_oracle_pointwise.
+Theorem C15_history_oracle_holds : forall rules qs, prop_c15_seq_b rules qs (object_answers src_cfg rules qs) = true.
+Proof. exact (fun rules qs => seq_oracle_holds src_cfg rules qs C15_source_configuration_good). Qed.
+Print Assumptions C15_history_oracle_holds.
+
 (* non-vacuity: overlapping rules, both separators, a garbage line, a typed rule, metacharacters.
    rules = "*=false;net.*=true\ngarbage;net.http.debug=false; a.b+c = true"  *)
 Definition ex_rules : str :=
@@ -182,4 +240,22 @@ Example C15_nonvacuous :
   /\ parse_line src_cfg [97;32;98;61;116;114;117;101] = None
   /\ parse_line src_cfg [97;61;84;82;85;69] = None
   /\ parse_line src_cfg [61;116;114;117;101] = None.
+Proof. vm_compute. repeat split; reflexivity. Qed.
+
+(* non-vacuity of the history theorems: rules "net.*=false;net.dns.warning=true"; ONE buffer (address 7) holds
+   "net.http", then "gui.main", then "net.dns" (debug, debug, debug, then net.dns as a warning, then "net.ftp"
+   as a warning): drop, pass, drop, pass, drop — the answers alternate although the address never changes *)
+Definition ex_rules2 : str :=
+  [110;101;116;46;42;61;102;97;108;115;101;59; 110;101;116;46;100;110;115;46;119;97;114;110;105;110;103;61;116;114;117;101].
+Definition ex_history : list query :=
+  [ {| q_addr := 7; q_cat := [110;101;116;46;104;116;116;112]; q_type := Debug |};
+    {| q_addr := 7; q_cat := [103;117;105;46;109;97;105;110]; q_type := Debug |};
+    {| q_addr := 7; q_cat := [110;101;116;46;100;110;115]; q_type := Debug |};
+    {| q_addr := 7; q_cat := [110;101;116;46;100;110;115]; q_type := Warning |};
+    {| q_addr := 7; q_cat := [110;101;116;46;102;116;112]; q_type := Warning |} ].
+Example C15_history_nonvacuous :
+  object_answers src_cfg ex_rules2 ex_history = [false; true; false; true; false]
+  /\ prop_c15_seq_b ex_rules2 ex_history [false; true; false; true; false] = true
+  (* the answers a pointer-keyed one-entry memo would give are rejected *)
+  /\ prop_c15_seq_b ex_rules2 ex_history [false; false; false; true; true] = false.
 Proof. vm_compute. repeat split; reflexivity. Qed.
